@@ -10,6 +10,7 @@
 -/
 import PS.Proofs.ConstraintsCfg
 import PS.Model.ConstraintsParse
+import PS.Proofs.ConstraintsParse
 import PS.Proofs.ConstraintsGrammar
 set_option synthInstance.maxSize 1024
 namespace PS.C05
@@ -239,18 +240,64 @@ theorem finding_C05_F1 :
     (addDftaConstraints (liftBase (cfg2dfta Finding.g)) [] none).map (fun D => D.accepts (.node Finding.sVar [])) = some true := by
   decide
 
-/-! ### the parser -/
+/-! ### the parser (character level)
+  `RTok`: a token tree as it is WRITTEN (names and numbers are character strings); `render`: its
+  canonical text — one blank between the elements of a pattern, none elsewhere, sets after `#` and `>`
+  in parentheses; `sem Sy`: its meaning — every name resolved to ALL the symbols of the grammar with
+  that name (one name may be used at several types), complements taken in the grammar's symbols,
+  `none` where the parser raises.  `renderOK` (decidable): names are plain (non-empty, none of
+  ` \t\n\r(){},^>#<=`, not `_` alone), name lists are not empty, numbers are digit strings, a
+  complemented head set excludes some symbol. -/
 
-/-! ### the parser
-  The character-level parser is modelled (PS.C05.parse) and compared with the library's on every
-  generated string.  A round-trip theorem `parse (render tok) = tok` for the documented syntax is
-  FALSE on the code as it is: the three findings below are counter-examples (by evaluation). -/
+/-- **parser, exact.**  For every written rule (a function pattern of any nesting, or a single word
+    `_` / `#…<=N` / `#…>=N` / `>…` / `>^…`), whatever the switches `fixF2 / fixF3 / fixF4` of the
+    model: parsing the canonical text yields `sem Sy t`, which with `fixF2` is the documented meaning
+    and without it collapses all-wildcard patterns (finding C05-F2). -/
+theorem C05_parse (Sy : Syms) (t : RTok) (hok : renderOK Sy t = true) (hk : isFunc t = true ∨ isRuleWord t = true) :
+    parse Sy (render t) = sem Sy t := by
+  rcases hk with h | h
+  · exact parse_render_func Sy t hok h
+  · exact parse_render_word Sy t hok h
+
+/-- **parser, repaired code** (fixes C05-F3, C05-F4 applied, C05-F2 proposed): no constraint of the
+    documented syntax is dropped or mis-read — the parse is the documented meaning. -/
+theorem C05_parse_fixed (Sy : Syms) (h2 : Sy.fixF2 = true) (t : RTok) (hok : renderOK Sy t = true)
+    (hk : isFunc t = true ∨ isRuleWord t = true) : parse Sy (render t) = sem (withF2 Sy) t := by
+  have : withF2 Sy = Sy := by cases Sy; simp [withF2] at h2 ⊢; exact h2
+  rw [this]; exact C05_parse Sy t hok hk
+
+/-- **parser, code as it is** (`fixF2 = false`): outside the decidable region of finding C05-F2 (no
+    pattern of the tree has only wildcard arguments) the parse is the documented meaning. -/
+theorem C05_parse_partial (Sy : Syms) (t : RTok) (hok : renderOK Sy t = true)
+    (hk : isFunc t = true ∨ isRuleWord t = true) (hF2 : noCollapse Sy t = true) :
+    parse Sy (render t) = sem (withF2 Sy) t := by
+  rw [sem_withF2 Sy t hF2]; exact C05_parse Sy t hok hk
+
+/-  FULL STATEMENT (false on the code as it is, finding C05-F2 — and for other spacings, finding C05-F5):
+      theorem C05_parse_full (Sy) (t) (hok : renderOK Sy t) : parse Sy (render t) = sem (withF2 Sy) t  -/
 
 namespace Finding
 def sy : Syms := { prims := [sPlus, Sym.prim "-" tII, sOne], vars := [sVar] }
 /-- symbols of a grammar whose request is `int -> str -> int -> int` with the `str` unused -/
 def sy2 : Syms := { prims := [sPlus, sOne], vars := [sVar, Sym.var 2 tInt] }
 end Finding
+
+namespace Finding
+/-- `(+ 1 (- _ #(1,0)<=2))` -/
+def rule : RTok := .func (.names ["+".toList]) [.set (.names ["1".toList]),
+  .func (.names ["-".toList]) [.any, .cnt true ["1".toList, "0".toList] "2".toList]]
+/-- `(+ (- _ _) _)` -/
+def ruleW : RTok := .func (.names ["+".toList]) [.func (.names ["-".toList]) [.any, .any], .any]
+end Finding
+
+/-- non-vacuity of the three parser theorems, and the text they speak about -/
+example : render Finding.rule = "(+ 1 (- _ #(1,0)<=2))".toList ∧ renderOK Finding.sy Finding.rule = true ∧
+    noCollapse Finding.sy Finding.rule = true ∧ isFunc Finding.rule = true ∧
+    (sem Finding.sy Finding.rule).isSome = true := by decide
+/-- in the region of C05-F2 the parse (`_`) is not the documented meaning -/
+example : render Finding.ruleW = "(+ (- _ _) _)".toList ∧ renderOK Finding.sy Finding.ruleW = true ∧
+    noCollapse Finding.sy Finding.ruleW = false ∧ (sem Finding.sy Finding.ruleW).map isAny = some true ∧
+    (sem (withF2 Finding.sy) Finding.ruleW).map isAny = some false := by decide
 
 /-- **Finding C05-F2.** A pattern all of whose arguments are `_` is parsed as `_`: the sketch
     `(+ _ _)` ("the program starts with +") and the nested pattern in `(+ (- _ _) _)` ("the first
@@ -273,5 +320,17 @@ theorem finding_C05_F4 :
     (interpretWord Finding.sy "#_<=1".toList).map (fun t => match t with | .atMost S n => (S.length, n) | _ => (99, 99)) = some (4, 1) ∧
     (interpretWord Finding.sy "^(1)".toList).map isAny = some true ∧
     (interpretWord Finding.sy "^1".toList).map isAny = some false := by decide
+
+/-- **Finding C05-F5.** Blanks other than single separating blanks silently change a rule: a leading
+    blank makes the head set empty (`add_dfta_constraints` then skips the rule as "primitive not
+    recognised"), two consecutive blanks insert an empty — unsatisfiable — argument pattern.  With
+    fixes_proposed/C05-F5.diff (`fixF5`) the same strings are read as `(+ 1 _)`. -/
+theorem finding_C05_F5 :
+    (parse Finding.sy " (+ 1 _)".toList).map (fun t => match t with | .func H _ => H.length | _ => 99) = some 0 ∧
+    (parse Finding.sy "(+ 1  _)".toList).map (fun t => match t with | .func H a => (H.length, a.length) | _ => (99, 99)) = some (1, 3) ∧
+    (parse { Finding.sy with fixF5 := true } " (+ 1  _ )".toList).map
+      (fun t => match t with | .func H [.allow S, .any] => (H.length, S.length) | _ => (99, 99)) = some (1, 1) ∧
+    (parse Finding.sy "(+ 1 _)".toList).map
+      (fun t => match t with | .func H [.allow S, .any] => (H.length, S.length) | _ => (99, 99)) = some (1, 1) := by decide
 
 end PS.C05
